@@ -17,6 +17,7 @@
 EXTENDS Naturals, Integers, Sequences, FiniteSets, CelValue
 LOCAL ZZ == INSTANCE BigInt
 LOCAL BF == INSTANCE CelBuiltins
+LOCAL TMX == INSTANCE CelTime
 
 NoThis == [t |-> "nothis"]
 None   == [k |-> "none"]
@@ -67,8 +68,15 @@ BinOps == [ f \in {"_+_", "_-_", "_*_", "_/_", "_%_", "_==_", "_!=_", "_<_", "_<
               [] f = "_[_]" -> "idx" ]
 UnOps == {"!_", "-_", "@not_strictly_false"}
 
+\* timestamp arithmetic lives in CelTime (exact instants); everything else in CelValue!Arith
+TimeArith(op, l, r) ==
+  IF op = "add" /\ l.t = "ts" /\ r.t = "dur" THEN TMX!PlusDur(l, r, 1)
+  ELSE IF op = "add" /\ l.t = "dur" /\ r.t = "ts" THEN TMX!PlusDur(r, l, 1)
+  ELSE IF op = "sub" /\ l.t = "ts" /\ r.t = "dur" THEN TMX!PlusDur(l, r, -1)
+  ELSE IF op = "sub" /\ l.t = "ts" /\ r.t = "ts" THEN TMX!Diff(l, r)
+  ELSE Arith(op, l, r)
 ApplyBin(op, l, r) ==
-  CASE op \in {"add", "sub", "mul", "div", "rem"} -> Arith(op, l, r)
+  CASE op \in {"add", "sub", "mul", "div", "rem"} -> TimeArith(op, l, r)
     [] op \in {"eq", "ne", "lt", "le", "gt", "ge"} -> Relation(op, l, r)
     [] op = "in"  -> Membership(l, r)
     [] op = "idx" -> IndexOp(l, r)
